@@ -139,7 +139,7 @@ func main() {
 	defer os.RemoveAll(dir)
 	wt := mgr.DefaultWeights
 	wt.Convert, wt.ImportPriv, wt.ImportScript, wt.ImportWScript, wt.ImportTScript, wt.ChangePriv, wt.ChangePub, wt.Unlock = 2, 5, 4, 4, 3, 5, 4, 10
-	wt.Neuter = 2
+	wt.Neuter, wt.NewScope = 2, 4
 	cfg := mgr.Config{Weights: wt, MinSteps: 10, MaxSteps: r.N(50, 60), C04: true}
 	r.Parallel("history", r.N(60, 1500), evid.Workers(), func(i int, cs int64) {
 		res := mgr.RunHistory(cfg, cs, dir)
@@ -148,6 +148,7 @@ func main() {
 	r.Parallel("walletconvert", r.N(16, 300), evid.Workers(), func(i int, cs int64) { walletConvert(r, dir, cs) })
 	r.Require("c04-wallet-level-conversions-checked", 10)
 	r.Require("c04-images-scanned", 500)
+	r.Require("c04-lock-requests-during-a-root-manager-operation", 3)
 	r.Require("c04-writes-scanned", 5000)
 	r.Require("c04-secret-patterns", 3000)
 	r.Require("c04-conversions-checked", 5)
